@@ -18,6 +18,14 @@ CHECKS = {
             "An independent stack automaton checks balance, back-pointers and class discipline of every token stream of the spaces.", "3 C04"),
     "C05": ("bounded-exhaustive enumeration + explicit-state frontier; opener table on the source text",
             "Every positioned token of every document of the spaces is checked against the source text at its line/column.", "3 C05"),
+    "C07": ("bounded-exhaustive enumeration of documents x rule configurations on the real application; range/order/uniqueness invariants",
+            "Every document of the rule/block spaces is scanned under the default set, all rules, and each rule alone; every report is checked for range, order, uniqueness, repeatability (also across hash seeds in fresh processes).", "3 C07"),
+    "C09": ("bounded-exhaustive enumeration of documents x rule subsets (size 1, 2, default); fix chains d->fix(d)->fix(fix(d)) explored as a state graph",
+            "Every fix chain over the spaces must reach a fixed point after one run with no fix-capable failure left.", "3 C09"),
+    "C10": ("bounded-exhaustive enumeration of documents and of all ordered selections of 1-3 files from a pool x schemes x modes; byte-level snapshots",
+            "bytes changed <=> 'Fixed:' announced <=> fixed exit code <=> API files_fixed; scan/stdin/list leave every file and the temp directory untouched.", "3 C10"),
+    "C12": ("bounded-exhaustive enumeration of documents x rule subsets; differential: set run vs union of single-rule runs",
+            "Reports under all rules / default set / default minus each rule must equal the multiset union of each rule's reports alone, on every document of the spaces.", "3 C12"),
 }
 NOT_YET = {}
 
